@@ -220,6 +220,16 @@ theorem flatAttrs_congr {cass cass' : List Cas} {H hpL : Heap} {isAnn : Bool} {o
     simp only [flatAttrs]
     rw [h f List.mem_cons_self, flatAttrs_congr fs (fun g hg => h g (List.mem_cons_of_mem _ hg))]
 
+theorem flatAttrsW_congr {cass cass' : List Cas} {H hpL : Heap} {isAnn : Bool} {o o' : Obj} :
+    ∀ (fs : List Feature),
+      (∀ f ∈ fs, flatTok cass' hpL isAnn o' f.name ((alistGet? o'.slots f.name).getD .none)
+        = flatTok cass H isAnn o f.name ((alistGet? o.slots f.name).getD .none)) →
+      flatAttrsW cass' hpL isAnn o' fs = flatAttrsW cass H isAnn o fs
+  | [], _ => rfl
+  | f :: fs, h => by
+    simp only [flatAttrsW]
+    rw [h f List.mem_cons_self, flatAttrsW_congr fs (fun g hg => h g (List.mem_cons_of_mem _ hg))]
+
 theorem new_elem (K : Consts) (ts : TypeSystem) (cass : List Cas) (ci : Nat) (c : Cas) (hp H : Heap)
     (L : List (Int × Nat)) (na : Int → Nat) (cass' : List Cas) (ci' : Nat) (c' : Cas) (hpL : Heap)
     (hc : cass[ci]? = some c) (hc' : cass'[ci']? = some c') (hwf : RTWf c hp) (hL : LOk K ts c ci H L)
@@ -239,7 +249,7 @@ theorem new_elem (K : Consts) (ts : TypeSystem) (cass : List Cas) (ci : Nat) (c 
   cases hfind1
   unfold flatElem
   rw [hor.1]
-  rw [flatAttrs_congr (allFeatures t) (fun f hf =>
+  rw [flatAttrsW_congr (allFeatures t) (fun f hf =>
     flatTok_new hc hc' hwf hL hrel hviews hq hHo hor _ hann f (hfeat f hf))]
 
 end Cassis.Xmi
